@@ -19,6 +19,8 @@
   record, every truncation length) and reported as tests in the evidence.
 -/
 import NutsProofs.Lemmas.CodecDec
+import NutsProofs.Facts
+import NutsProofs.Pins.Layouts
 namespace NutsProofs.C21
 open Nuts Nuts.Model.Codec NutsProofs.Codec NutsProofs.Crc
 
@@ -478,5 +480,20 @@ example : ∃ A B x, encodeEntry sampleEntry = A ++ x :: B ∧ A.length = 35 ∧
   · decide
   · decide
   · decide
+
+/-- **regenerated tie of the codecs.** Read off entry.go / bucket_meta.go / bptree_root_idx.go on this run: encoder
+and decoder agree on every header field of the three record kinds; every field's slice has the width of its
+integer type, the fields are disjoint and cover the header (42 / 12 / 28 bytes); the checksum covers everything
+after the crc field and then the payloads in storage order; the header size constant is the model's. -/
+theorem C21_layouts_regenerated :
+    (NutsProofs.Facts.fieldsOf NutsGen.F.entryEnc = NutsProofs.Facts.fieldsOf NutsGen.F.entryDec ∧
+     NutsProofs.Facts.fieldsOf NutsGen.F.metaEnc = NutsProofs.Facts.fieldsOf NutsGen.F.metaDec ∧
+     NutsProofs.Facts.fieldsOf NutsGen.F.rootEnc = NutsProofs.Facts.fieldsOf NutsGen.F.rootDec) ∧
+    (NutsProofs.Facts.wf NutsGen.F.entryEnc 42 = true ∧ NutsProofs.Facts.wf NutsGen.F.metaEnc 12 = true ∧
+     NutsProofs.Facts.wf NutsGen.F.rootEnc 28 = true) ∧
+    NutsGen.F.entryCrcDec = ["buf[4:]", "e.Meta.bucket", "e.Key", "e.Value"] ∧
+    NutsProofs.Facts.lookup NutsGen.F.consts "DataEntryHeaderSize" = some (Nuts.Model.DB.headerSize : Nat) :=
+  ⟨NutsProofs.Facts.layouts_agree, NutsProofs.Facts.layouts_wf, NutsProofs.Facts.crc_coverage_ok.2.1,
+   NutsProofs.Facts.consts_ok.2.2.2.2.2.2.2.2.2.2.2.2.2.2.2.2.2.2.1⟩
 
 end NutsProofs.C21
